@@ -1,7 +1,7 @@
 use serde::{Deserialize, Serialize};
 
 use crate::{
-    Document, FatToken,
+    Document, FatToken, Punctuation, TokenKind,
     linting::{Lint, LintKind, Suggestion},
 };
 
@@ -42,7 +42,17 @@ impl LintContext {
             .chain(problem_tokens)
             .chain(sequel_tokens)
             .flat_map(|idx| document.get_token(idx))
-            .map(|t| t.to_fat(document.get_source()))
+            .map(|t| {
+                let mut fat = t.to_fat(document.get_source());
+
+                // A quote's partner is recorded as a token index, which is a location: it changes
+                // whenever a token is inserted earlier in the document.
+                if let TokenKind::Punctuation(Punctuation::Quote(quote)) = &mut fat.kind {
+                    quote.twin_loc = None;
+                }
+
+                fat
+            })
             .collect();
 
         Self {
